@@ -61,6 +61,14 @@ func genC01(c *Ctx) {
 	add("corpus:jwt-null", "t", []byte("bnVsbA.bnVsbA."))
 	add("corpus:uuid-braces", "u", []byte("x1EC9414C-232A-6B00-B3C8-9E6BDECED846y"))
 
+	// deep nesting: recursion depth must be bounded for every wrapping construct (a goroutine stack
+	// overflow is a fatal error, not a recoverable panic): 2.5 million levels, 10-15 MB each
+	for _, w := range []struct {
+		tag  string
+		head byte
+	}{{"sequence", 0x30}, {"set", 0x31}, {"octet-string", 0x04}, {"context-0", 0xa0}, {"bit-string", 0x03}} {
+		add("corpus:deep-"+w.tag, "deep.der", nestDER(w.head, 2500000))
+	}
 	seeds := allFixtures()
 	seeds = append(seeds,
 		seedInput{"pgp", "k.asc", armoredPGPKey(c.R, true)},
@@ -186,4 +194,41 @@ func genC01(c *Ctx) {
 		os.Remove(p)
 	}
 	os.RemoveAll(dir)
+}
+
+// nestDER wraps NULL in n levels of the given identifier octet with definite DER lengths
+// (for BIT STRING the wrapped value follows a zero "unused bits" octet).
+func nestDER(head byte, n int) []byte {
+	// built back to front into one buffer
+	buf := make([]byte, 0, 6*n+2)
+	buf = append(buf, 0x00, 0x05) // reversed "05 00"
+	length := 2
+	for i := 0; i < n; i++ {
+		if head == 0x03 {
+			buf = append(buf, 0x00)
+			length++
+		}
+		switch {
+		case length < 0x80:
+			buf = append(buf, byte(length))
+			length += 2
+		case length < 0x100:
+			buf = append(buf, byte(length), 0x81)
+			length += 3
+		case length < 0x10000:
+			buf = append(buf, byte(length), byte(length>>8), 0x82)
+			length += 4
+		case length < 0x1000000:
+			buf = append(buf, byte(length), byte(length>>8), byte(length>>16), 0x83)
+			length += 5
+		default:
+			buf = append(buf, byte(length), byte(length>>8), byte(length>>16), byte(length>>24), 0x84)
+			length += 6
+		}
+		buf = append(buf, head)
+	}
+	for i, j := 0, len(buf)-1; i < j; i, j = i+1, j-1 {
+		buf[i], buf[j] = buf[j], buf[i]
+	}
+	return buf
 }
